@@ -117,7 +117,7 @@ func (c *allOfConstraintCompiler) extendWith(node schema.Node, name string) {
 
 	for i, childNode := range fromObject.Children() {
 		key := fromObject.Key(i)
-		toObject.AddChild(key, childNode) // can panic ErrDuplicateKeysInSchema
+		toObject.AddInheritedChild(key, childNode) // can panic ErrDuplicateKeysInSchema
 	}
 
 	if requiredKeys := fromObject.Constraint(constraint.RequiredKeysConstraintType); requiredKeys != nil {
